@@ -13,6 +13,7 @@ mod c11;
 mod c12;
 mod c13;
 mod c14;
+mod c15;
 mod c16;
 mod c19;
 mod pop;
@@ -55,6 +56,7 @@ fn main() {
         "C12" => c12::run(&mut out, thorough, seed),
         "C13" => c13::run(&mut out, thorough, seed),
         "C14" => c14::run(&mut out, thorough, seed),
+        "C15" => c15::run(&mut out, thorough, seed),
         "C16" => c16::run(&mut out, thorough, seed),
         "C19" => c19::run(&mut out, thorough, seed),
         "C20" => c20::run(&mut out, thorough, seed),
